@@ -265,3 +265,98 @@ func c17RunPoll(c *Ctx, h c17Hist, base string) *c17Out {
 	cancel()
 	return o
 }
+
+// ---------- mode "samedir": the watched path is a symlink whose target changes WITHIN one directory ----------
+//
+// cfg.json -> v1.json; the symlink is atomically retargeted to the sibling v2.json (new content: converges), then the
+// file the path NOW resolves to is rewritten in place: the watcher must have moved its file watch / event filter to
+// the new target although the resolved DIRECTORY did not change.
+
+func c17GenSameDir(r *RNG, id string) c17Hist {
+	h := c17Hist{ID: id, Mode: "samedir", Layout: "plain", Init: fmt.Sprintf(`{"A":"%s.0","N":0}`, id), InitValid: true}
+	k := 1
+	for n := 1 + r.Intn(3); n > 0; n-- {
+		h.Ops = append(h.Ops, c17Op{Mech: "retarget", What: "new", Valid: true, Content: fmt.Sprintf(`{"A":"%s.%d","N":%d}`, id, k, k), PauseUS: c17Pauses[r.Intn(len(c17Pauses))]})
+		k++
+		for m := 1 + r.Intn(2); m > 0; m-- {
+			h.Ops = append(h.Ops, c17Op{Mech: "inplace", What: "new", Valid: true, Content: fmt.Sprintf(`{"A":"%s.%d","N":%d}`, id, k, k), PauseUS: c17Pauses[r.Intn(len(c17Pauses))]})
+			k++
+		}
+	}
+	return h
+}
+
+func c17RunSameDir(c *Ctx, h c17Hist, base string) *c17Out {
+	o := &c17Out{hist: h, counts: map[string]int{}}
+	dir := filepath.Join(base, h.ID)
+	if err := os.MkdirAll(dir, 0o755); err != nil {
+		o.add("violation", "harness: cannot set up the temp directory: "+err.Error(), nil, nil, nil)
+		return o
+	}
+	defer os.RemoveAll(dir)
+	cfg := filepath.Join(dir, "cfg.json")
+	gen := 1
+	target := func(g int) string { return fmt.Sprintf("v%d.json", g) }
+	if os.WriteFile(filepath.Join(dir, target(gen)), []byte(h.Init), 0o644) != nil || os.Symlink(target(gen), cfg) != nil {
+		o.add("violation", "harness: cannot create the initial file and symlink", nil, nil, nil)
+		return o
+	}
+	ws, err := file.NewWatchingSource(cfg, &djson.Decoder{})
+	if err != nil {
+		o.add("violation", "NewWatchingSource failed: "+err.Error(), nil, nil, nil)
+		return o
+	}
+	ctx, cancel := context.WithCancel(context.Background())
+	defer cancel()
+	var d *dials.Dials[c17JSONCfg]
+	pprof.Do(ctx, pprof.Labels("c17", h.ID), func(ctx context.Context) {
+		d, err = dials.Config(ctx, &c17JSONCfg{}, ws)
+	})
+	if err != nil {
+		o.add("violation", "dials.Config failed on a valid initial file: "+err.Error(), nil, nil, nil)
+		return o
+	}
+	want := func(s string) c17JSONCfg {
+		var v c17JSONCfg
+		json.Unmarshal([]byte(s), &v)
+		return v
+	}
+	for i, op := range h.Ops {
+		c17Sleep(op.PauseUS)
+		var ferr error
+		switch op.Mech {
+		case "retarget":
+			gen++
+			if ferr = os.WriteFile(filepath.Join(dir, target(gen)), []byte(op.Content), 0o644); ferr == nil {
+				tmp := cfg + ".tmp"
+				os.Remove(tmp)
+				if ferr = os.Symlink(target(gen), tmp); ferr == nil {
+					ferr = os.Rename(tmp, cfg)
+				}
+			}
+		default: // in-place rewrite of whatever the path resolves to now
+			ferr = os.WriteFile(cfg, []byte(op.Content), 0o644)
+		}
+		if ferr != nil {
+			o.add("violation", "harness: file operation failed: "+ferr.Error(), nil, nil, nil)
+			return o
+		}
+		t0 := time.Now()
+		for *d.View() != want(op.Content) && time.Since(t0) < c17Deadline {
+			time.Sleep(c17Poll)
+		}
+		if got := *d.View(); got != want(op.Content) {
+			what := "same-directory symlink: after the symlink was retargeted to a sibling file the view did not converge to the new target's content"
+			if op.Mech == "inplace" {
+				what = "same-directory symlink: after an in-place rewrite of the file the path now resolves to (a sibling of the old target) the view did not converge to the final content"
+			}
+			o.add("violation", fmt.Sprintf("%s (operation %d)", what, i), want(op.Content), got, nil)
+			return o
+		}
+	}
+	o.count("samedir/histories")
+	o.nontrivial = len(h.Ops) >= 3
+	o.canon = fmt.Sprint(h.Init, h.Ops)
+	cancel()
+	return o
+}
